@@ -11,7 +11,9 @@
 package absnfs
 
 //@ also NFSProcedureHandler.handleCreate
-//@ callassert AbsfsNFS.Create : [create-only-when-absent] {C03} !isnil(lookupErr)
+// (strengthened after a seeded change made Lookup report a slow stat as a timeout: a lookup that FAILED is not a
+// lookup that found nothing - only the latter may be followed by the backend's truncating Create; status 2 = NOENT)
+//@ callassert AbsfsNFS.Create : [create-only-when-absent] {C03} !isnil(lookupErr) && errStatus(lookupErr) == 2
 //@ callassert NFSNode.Truncate : [truncate-only-explicit-size] {C03} isnil(lookupErr) && createHow == 0 && setSize && arg1 == newSize
 //@ callassert NFSNode.Truncate : [truncate-is-first-mutation] {C03} mutlog == old(mutlog)
 // at every point a reply is taken from its buffer:
